@@ -385,6 +385,10 @@ def main():
             if search_hit is not None:
                 violations.append(make_violation(prop, t, 'degraded:' + r['unsupported'], None, search_hit,
                                                  'bounded-search', replay_dir))
+            else:
+                # a function the VC generator cannot take on this tree is not proved: the property is
+                # undecided for it (exit 2), whatever the bounded comparison sampled
+                undecided.append({'obligation': t + '#not-under-proof', 'detail': 'degraded: ' + r['unsupported']})
             continue
         for o in bad:
             hit = None
